@@ -1,4 +1,5 @@
 import SuxModel.RankSel.Adapt.LemmasQuery
+import SuxModel.RankSel.Adapt.LemmasBuild
 /-!
 # C02 (part A, adaptive family) — `SelectAdapt`, `SelectZeroAdapt`, `SelectAdaptConst`,
 `SelectZeroAdaptConst` return the r-th one / zero
@@ -180,5 +181,187 @@ theorem adapt_select_none_iff (P : Params) (idx : Idx) (ws : Array Nat) (len : N
 
 example (r : Nat) : select exP exWs exIdx (count exP exWs exLen) r = .ok none ↔ r ≥ count exP exWs exLen :=
   adapt_select_none_iff exP exIdx exWs exLen exLenOK exInv r
+
+/-! ## (B) the builder establishes the invariant, for all inputs -/
+
+theorem exLen62 : max 1 exLen < 2 ^ 62 := by decide
+
+/-- **C02 (B).**  For every backend `ws` (stale bits beyond `len` and extra words included, no bound on
+the word values needed), every length `len ≤ 64 * ws.size` with `max 1 len < 2^62`, every polarity and
+all parameters `L, M < 64`, the builder (`_new` of the run-time variants after clamping `M`, `new` of
+the const variants) — run with the true number of selectable bits — terminates without panic
+(none of its `assert!`, `debug_assert!`, checked subtractions, safe indexings fires) and its arrays
+satisfy `AdaptInvOK`.
+The two side conditions are forced: `1 << L` / `1 << M` overflow for `L, M ≥ 64`; for
+`len ≥ 2^62` positions collide with the two tag bits of an inventory entry. -/
+theorem adapt_build_inv (P : Params) (ws : Array Nat) (len : Nat) (hL : P.L < 64) (hM : P.M < 64)
+    (hlen : len ≤ 64 * ws.size) (h62 : max 1 len < 2 ^ 62) :
+    ∃ idx, build P ws len (count P ws len) = .ok idx ∧ AdaptInvOK P idx ws len :=
+  build_spec P ws len hL hM hlen h62
+
+example : ∃ idx, build exPz exWs exLen (count exPz exWs exLen) = .ok idx ∧ AdaptInvOK exPz idx exWs exLen :=
+  adapt_build_inv exPz exWs exLen (by decide) (by decide) exLenOK exLen62
+
+/-- `SelectAdaptConst::<_, _, l, m>::new` / `SelectZeroAdaptConst::new` over a structure reporting the
+true `count_ones()` -/
+theorem adapt_const_build_inv (zero : Bool) (l m : Nat) (ws : Array Nat) (len : Nat)
+    (hl : l < 64) (hm : m < 64) (hlen : len ≤ 64 * ws.size) (h62 : max 1 len < 2 ^ 62) :
+    ∃ idx, buildConst zero l m ws len (numOnes ws len) = .ok (paramsConst zero l m, idx) ∧
+      AdaptInvOK (paramsConst zero l m) idx ws len :=
+  buildConst_spec zero l m ws len hl hm hlen h62
+
+example : ∃ idx, buildConst true 3 1 exWs exLen (numOnes exWs exLen) = .ok (paramsConst true 3 1, idx) ∧
+    AdaptInvOK (paramsConst true 3 1) idx exWs exLen :=
+  adapt_const_build_inv true 3 1 exWs exLen (by decide) (by decide) exLenOK exLen62
+
+/-- `SelectAdapt::with_inv` / `SelectZeroAdapt::with_inv` (any `max_log2_u64_per_subinventory`) -/
+theorem adapt_with_inv_build_inv (zero : Bool) (l maxM : Nat) (ws : Array Nat) (len : Nat)
+    (hl : l < 64) (hlen : len ≤ 64 * ws.size) (h62 : max 1 len < 2 ^ 62) :
+    ∃ idx, buildRun zero "inv" l maxM ws len (numOnes ws len) = .ok (paramsRun zero l maxM, idx) ∧
+      AdaptInvOK (paramsRun zero l maxM) idx ws len :=
+  buildRun_inv_spec zero l maxM ws len hl hlen h62
+
+example : ∃ idx, buildRun false "inv" 2 16 exWs exLen (numOnes exWs exLen) = .ok (paramsRun false 2 16, idx) ∧
+    AdaptInvOK (paramsRun false 2 16) idx exWs exLen :=
+  adapt_with_inv_build_inv false 2 16 exWs exLen (by decide) exLenOK exLen62
+
+/-- `SelectAdapt::new` (`how = "new"`, target span 8192) and `with_span` (any other `how ≠ "inv"`,
+target span `p1`).  Forced hypothesis: `count * span < 2^64` — the Rust code computes
+`num_ones * target_inventory_span` in `usize` (checked build: panic on overflow). -/
+theorem adapt_with_span_build_inv (zero : Bool) (how : String) (p1 maxM : Nat) (ws : Array Nat) (len : Nat)
+    (hhow : (how == "inv") = false)
+    (hov : count (paramsRun zero 0 0) ws len * (if how == "new" then 8192 else p1) < 2 ^ 64)
+    (hlen : len ≤ 64 * ws.size) (h62 : max 1 len < 2 ^ 62) :
+    ∃ l idx, buildRun zero how p1 maxM ws len (numOnes ws len) = .ok (paramsRun zero l maxM, idx) ∧
+      log2ForSpan len (count (paramsRun zero 0 0) ws len) (if how == "new" then 8192 else p1) = .ok l ∧
+      AdaptInvOK (paramsRun zero l maxM) idx ws len :=
+  buildRun_span_spec zero how p1 maxM ws len hhow hov hlen h62
+
+example : ∃ l idx, buildRun true "new" 0 3 exWs exLen (numOnes exWs exLen) = .ok (paramsRun true l 3, idx) ∧
+    log2ForSpan exLen (count (paramsRun true 0 0) exWs exLen) (if "new" == "new" then 8192 else 0) = .ok l ∧
+    AdaptInvOK (paramsRun true l 3) idx exWs exLen :=
+  adapt_with_span_build_inv true "new" 0 3 exWs exLen (by decide) (by decide) exLenOK exLen62
+
+/-! ## end to end: the layers answer the specification -/
+
+/-- the query closure of a layer built from `(P, idx)` -/
+theorem mkLayer_select (parts : String) (P : Params) (ws : Array Nat) (len : Nat) (idx : Idx)
+    (hP : P.zero = false) (hlen : len ≤ 64 * ws.size) (h : AdaptInvOK P idx ws len) :
+    ∃ q, (mkLayer parts P ws len (numOnes ws len) idx).select = some q ∧
+      ∀ r, q r = .ok (selectSpec ws len r) := by
+  unfold mkLayer
+  simp only [hP, Bool.false_eq_true, if_false]
+  refine ⟨_, rfl, ?_⟩
+  intro r
+  have hc := countOf_spec P ws len
+  rw [hP] at hc
+  simp only [bind, Out.bind, hc]
+  rw [count_ones_eq P ws len hP]
+  exact adapt_select_correct P idx ws len hP hlen h r
+
+theorem mkLayer_selectZero (parts : String) (P : Params) (ws : Array Nat) (len : Nat) (idx : Idx)
+    (hP : P.zero = true) (hlen : len ≤ 64 * ws.size) (h : AdaptInvOK P idx ws len) :
+    ∃ q, (mkLayer parts P ws len (numOnes ws len) idx).selectZero = some q ∧
+      ∀ r, q r = .ok (selectZeroSpec ws len r) := by
+  unfold mkLayer
+  simp only [hP, if_true]
+  refine ⟨_, rfl, ?_⟩
+  intro r
+  have hc := countOf_spec P ws len
+  rw [hP] at hc
+  simp only [bind, Out.bind, hc]
+  rw [count_zeros_eq P ws len hP]
+  exact adapt_select_zero_correct P idx ws len hP hlen h r
+
+/-- **C02 for `SelectAdaptConst<_, _, l, m>`**: built by the modelled builder over any bit vector,
+`select r` is `selectSpec ws len r` for every `r` (the r-th one, `None` from `numOnes` on). -/
+theorem adaptConst_select_correct (l m : Nat) (ws : Array Nat) (len : Nat) (hl : l < 64) (hm : m < 64)
+    (hlen : len ≤ 64 * ws.size) (h62 : max 1 len < 2 ^ 62) :
+    ∃ q, (layerConst false l m ws len (numOnes ws len)).select = some q ∧
+      ∀ r, q r = .ok (selectSpec ws len r) := by
+  obtain ⟨idx, he, hinv⟩ := buildConst_spec false l m ws len hl hm hlen h62
+  unfold layerConst
+  rw [he]
+  exact mkLayer_select _ _ ws len idx rfl hlen hinv
+
+example : ∃ q, (layerConst false 1 0 exWs exLen (numOnes exWs exLen)).select = some q ∧
+    ∀ r, q r = .ok (selectSpec exWs exLen r) :=
+  adaptConst_select_correct 1 0 exWs exLen (by decide) (by decide) exLenOK exLen62
+
+/-- **C02 for `SelectZeroAdaptConst<_, _, l, m>`** -/
+theorem adaptConst_select_zero_correct (l m : Nat) (ws : Array Nat) (len : Nat) (hl : l < 64) (hm : m < 64)
+    (hlen : len ≤ 64 * ws.size) (h62 : max 1 len < 2 ^ 62) :
+    ∃ q, (layerConst true l m ws len (numOnes ws len)).selectZero = some q ∧
+      ∀ r, q r = .ok (selectZeroSpec ws len r) := by
+  obtain ⟨idx, he, hinv⟩ := buildConst_spec true l m ws len hl hm hlen h62
+  unfold layerConst
+  rw [he]
+  exact mkLayer_selectZero _ _ ws len idx rfl hlen hinv
+
+example : ∃ q, (layerConst true 1 0 exWs exLen (numOnes exWs exLen)).selectZero = some q ∧
+    ∀ r, q r = .ok (selectZeroSpec exWs exLen r) :=
+  adaptConst_select_zero_correct 1 0 exWs exLen (by decide) (by decide) exLenOK exLen62
+
+/-- **C02 for `SelectAdapt::with_inv`** -/
+theorem adapt_with_inv_select_correct (l maxM : Nat) (ws : Array Nat) (len : Nat) (hl : l < 64)
+    (hlen : len ≤ 64 * ws.size) (h62 : max 1 len < 2 ^ 62) :
+    ∃ q, (layerRun false "inv" l maxM ws len (numOnes ws len)).select = some q ∧
+      ∀ r, q r = .ok (selectSpec ws len r) := by
+  obtain ⟨idx, he, hinv⟩ := buildRun_inv_spec false l maxM ws len hl hlen h62
+  unfold layerRun
+  rw [he]
+  exact mkLayer_select _ _ ws len idx rfl hlen hinv
+
+example : ∃ q, (layerRun false "inv" 2 16 exWs exLen (numOnes exWs exLen)).select = some q ∧
+    ∀ r, q r = .ok (selectSpec exWs exLen r) :=
+  adapt_with_inv_select_correct 2 16 exWs exLen (by decide) exLenOK exLen62
+
+/-- **C02 for `SelectZeroAdapt::with_inv`** -/
+theorem adapt_with_inv_select_zero_correct (l maxM : Nat) (ws : Array Nat) (len : Nat) (hl : l < 64)
+    (hlen : len ≤ 64 * ws.size) (h62 : max 1 len < 2 ^ 62) :
+    ∃ q, (layerRun true "inv" l maxM ws len (numOnes ws len)).selectZero = some q ∧
+      ∀ r, q r = .ok (selectZeroSpec ws len r) := by
+  obtain ⟨idx, he, hinv⟩ := buildRun_inv_spec true l maxM ws len hl hlen h62
+  unfold layerRun
+  rw [he]
+  exact mkLayer_selectZero _ _ ws len idx rfl hlen hinv
+
+example : ∃ q, (layerRun true "inv" 2 16 exWs exLen (numOnes exWs exLen)).selectZero = some q ∧
+    ∀ r, q r = .ok (selectZeroSpec exWs exLen r) :=
+  adapt_with_inv_select_zero_correct 2 16 exWs exLen (by decide) exLenOK exLen62
+
+/-- **C02 for `SelectAdapt::new` / `with_span`** (`numOnes * span < 2^64`) -/
+theorem adapt_with_span_select_correct (how : String) (p1 maxM : Nat) (ws : Array Nat) (len : Nat)
+    (hhow : (how == "inv") = false)
+    (hov : numOnes ws len * (if how == "new" then 8192 else p1) < 2 ^ 64)
+    (hlen : len ≤ 64 * ws.size) (h62 : max 1 len < 2 ^ 62) :
+    ∃ q, (layerRun false how p1 maxM ws len (numOnes ws len)).select = some q ∧
+      ∀ r, q r = .ok (selectSpec ws len r) := by
+  rw [← count_ones_eq (paramsRun false 0 0) ws len rfl] at hov
+  obtain ⟨l, idx, he, _, hinv⟩ := buildRun_span_spec false how p1 maxM ws len hhow hov hlen h62
+  unfold layerRun
+  rw [he]
+  exact mkLayer_select _ _ ws len idx rfl hlen hinv
+
+example : ∃ q, (layerRun false "span" 512 2 exWs exLen (numOnes exWs exLen)).select = some q ∧
+    ∀ r, q r = .ok (selectSpec exWs exLen r) :=
+  adapt_with_span_select_correct "span" 512 2 exWs exLen (by decide) (by decide) exLenOK exLen62
+
+/-- **C02 for `SelectZeroAdapt::new` / `with_span`** (`numZeros * span < 2^64`) -/
+theorem adapt_with_span_select_zero_correct (how : String) (p1 maxM : Nat) (ws : Array Nat) (len : Nat)
+    (hhow : (how == "inv") = false)
+    (hov : numZeros ws len * (if how == "new" then 8192 else p1) < 2 ^ 64)
+    (hlen : len ≤ 64 * ws.size) (h62 : max 1 len < 2 ^ 62) :
+    ∃ q, (layerRun true how p1 maxM ws len (numOnes ws len)).selectZero = some q ∧
+      ∀ r, q r = .ok (selectZeroSpec ws len r) := by
+  rw [← count_zeros_eq (paramsRun true 0 0) ws len rfl] at hov
+  obtain ⟨l, idx, he, _, hinv⟩ := buildRun_span_spec true how p1 maxM ws len hhow hov hlen h62
+  unfold layerRun
+  rw [he]
+  exact mkLayer_selectZero _ _ ws len idx rfl hlen hinv
+
+example : ∃ q, (layerRun true "new" 0 3 exWs exLen (numOnes exWs exLen)).selectZero = some q ∧
+    ∀ r, q r = .ok (selectZeroSpec exWs exLen r) :=
+  adapt_with_span_select_zero_correct "new" 0 3 exWs exLen (by decide) (by decide) exLenOK exLen62
 
 end Sux.RS.Adapt
